@@ -375,6 +375,10 @@ type Proxy struct {
 	// LoopGuard, when non-zero, makes the inner modifier fail once Passed exceeds it
 	// (so that an undetected forwarding loop ends instead of exhausting the machine).
 	LoopGuard atomic.Int64
+	// Routed counts next-hop selections (one per forwarded request or CONNECT); RouteGuard,
+	// when non-zero, makes the selection fail once Routed exceeds it.
+	Routed     atomic.Int64
+	RouteGuard atomic.Int64
 	cancel context.CancelFunc
 	done   chan error
 
@@ -395,12 +399,31 @@ func (p *Proxy) URL() *url.URL { return &url.URL{Scheme: "http", Host: p.Addr} }
 // listener (forwarder.NewHTTPProxy, production transport from
 // forwarder.NewHTTPTransport) and runs it.  tweak may adjust the configuration.
 func StartProxy(name string, tweak func(cfg *forwarder.HTTPProxyConfig)) (*Proxy, error) {
+	return StartProxyOpts(name, ProxyOpts{Tweak: tweak})
+}
+
+// ProxyOpts selects variations of the production wiring.
+type ProxyOpts struct {
+	Tweak func(cfg *forwarder.HTTPProxyConfig)
+	// ConnectHeaderCallback sets Transport.GetProxyConnectHeader the way command/run
+	// configureTransportProxy always does (a callback returning the configured, here empty, header).
+	ConnectHeaderCallback bool
+}
+
+func StartProxyOpts(name string, opts ProxyOpts) (*Proxy, error) {
+	tweak := opts.Tweak
 	p := &Proxy{Name: name, done: make(chan error, 1)}
 	cfg := forwarder.DefaultHTTPProxyConfig()
 	cfg.Address = "127.0.0.1:0"
 	cfg.Name = name
 	cfg.ProxyLocalhost = forwarder.AllowProxyLocalhost // the scripted peers live on 127.0.0.1
 	cfg.UpstreamProxyFunc = func(*http.Request) (*url.URL, error) {
+		// the guard sits here, outside the modifier stack, so that it also ends loops of a
+		// proxy that ignores modifier errors
+		n := p.Routed.Add(1)
+		if g := p.RouteGuard.Load(); g != 0 && n > g {
+			return nil, errors.New("verif: route guard tripped (forwarding loop not refused)")
+		}
 		p.mu.Lock()
 		defer p.mu.Unlock()
 		return p.upstream, nil
@@ -419,6 +442,11 @@ func StartProxy(name string, tweak func(cfg *forwarder.HTTPProxyConfig)) (*Proxy
 	rt, err := forwarder.NewHTTPTransport(tcfg)
 	if err != nil {
 		return nil, err
+	}
+	if opts.ConnectHeaderCallback {
+		rt.GetProxyConnectHeader = func(context.Context, *url.URL, string) (http.Header, error) {
+			return make(http.Header), nil
+		}
 	}
 	hp, err := forwarder.NewHTTPProxy(cfg, nil, nil, rt, log.NopLogger, nil)
 	if err != nil {
